@@ -5,6 +5,7 @@ package absnfs
 import (
 	"fmt"
 	"testing"
+	"time"
 
 	"verif.local/lib/evid"
 	"verif.local/lib/refs"
@@ -18,7 +19,7 @@ import (
 
 func TestVerif_C05(t *testing.T) {
 	rec := evid.New("C05")
-	rec.Rule = "direct FileHandleMap histories (Allocate/Get/Release/ReleaseAll) for max in {1,2,3,5,10,64} with path pools 1-20x max, plus handler-level histories (MNT/LOOKUP/CREATE/MKDIR/SYMLINK/READDIRPLUS) with a small handle limit; distinct = (layer, max, step kind, table state class) tuples"
+	rec.Rule = "direct FileHandleMap histories (Allocate/Get/Release/ReleaseAll) for max in {1,2,3,5,10,64} with path pools 1-20x max, plus handler-level histories (MNT/LOOKUP/CREATE/MKDIR/SYMLINK/READDIRPLUS) with a small handle limit, and one name given to a file, a directory and a symlink in turn (every returned handle used at once for something only that kind can do); distinct = (layer, max, step kind, table state class) tuples"
 	defer rec.Write()
 	hist := evid.Pick(600, 20000)
 	for ep := 0; ep < hist && rec.Violations() < 30; ep++ {
@@ -27,6 +28,9 @@ func TestVerif_C05(t *testing.T) {
 	hh := evid.Pick(60, 2000)
 	for ep := 0; ep < hh && rec.Violations() < 30; ep++ {
 		vfC05Handlers(rec, ep)
+	}
+	for ep := 0; ep < evid.Pick(48, 1600) && rec.Violations() < 30; ep++ {
+		vfC05NameReuse(rec, ep)
 	}
 }
 
@@ -487,5 +491,140 @@ func vfC06Handlers(rec *evid.Rec, ep int) {
 				break
 			}
 		}
+	}
+}
+
+// vfC05NameReuse: one name is given to a file, a directory and a symbolic link in turn (the handle
+// issued for the previous object is still live: REMOVE/RMDIR release nothing). The handle the
+// creating procedure - or a LOOKUP right after it - returns must resolve to the object it names NOW:
+// it is used at once for something only that kind of object can do.
+func vfC05NameReuse(rec *evid.Rec, ep int) {
+	rng := evid.Rng(555, int64(ep))
+	fs := refs.New()
+	fs.PlantFile("/target", []byte("t"), 0644, 0, 0)
+	srv, err := vfNewSrv(fs, ExportOptions{AttrCacheTimeout: []time.Duration{1, 5 * time.Second}[ep%2], EnableDirCache: ep%4 >= 2, CacheNegativeLookups: ep%8 >= 4})
+	if err != nil {
+		rec.Infra(err.Error())
+		return
+	}
+	defer srv.Close()
+	c := srv.client()
+	root, err := c.mnt("/")
+	if err != nil {
+		rec.Infra(err.Error())
+		return
+	}
+	var ops []string
+	fail := func(sig, what string) {
+		rec.Violate(sig, what, map[string]any{"episode": ep, "ops": append([]string(nil), ops...)})
+	}
+	prev := "none"
+	for i := 0; i < 8; i++ {
+		kind := []string{"file", "dir", "symlink"}[rng.Intn(3)]
+		viaLookup := rng.Intn(2) == 0
+		var h uint64
+		var st uint32 = 99
+		switch kind {
+		case "file":
+			ops = append(ops, "CREATE x")
+			if r, _ := c.create(root, "x", 1, sattrNone, [8]byte{}); r != nil {
+				st = r.Status
+				if r.FHPresent {
+					h = vfFH(r.FH)
+				}
+			}
+		case "dir":
+			ops = append(ops, "MKDIR x")
+			if r, _ := c.mkdir(root, "x", sattrNone); r != nil {
+				st = r.Status
+				if r.FHPresent {
+					h = vfFH(r.FH)
+				}
+			}
+		default:
+			ops = append(ops, "SYMLINK x -> target")
+			if r, _ := c.symlink(root, "x", "target", sattrNone); r != nil {
+				st = r.Status
+				if r.FHPresent {
+					h = vfFH(r.FH)
+				}
+			}
+		}
+		if st != 0 {
+			fail("C05/name-reuse/create-failed/kind="+kind, fmt.Sprintf("creating x as %s after it had been %s: status %d", kind, prev, st))
+			return
+		}
+		src := "creating-procedure"
+		if viaLookup || h == 0 {
+			ops = append(ops, "LOOKUP x")
+			l, _ := c.lookup(root, "x")
+			if l == nil || l.Status != 0 {
+				fail("C05/name-reuse/lookup-failed/kind="+kind, fmt.Sprintf("LOOKUP x right after creating it as %s (was %s): %+v", kind, prev, vfSt(l)))
+				return
+			}
+			if h != 0 && vfFH(l.FH) != h {
+				fail("C05/two-live-values-for-one-path", fmt.Sprintf("x: the creating procedure returned %d, the LOOKUP right after it %d", h, vfFH(l.FH)))
+			}
+			h, src = vfFH(l.FH), "LOOKUP"
+		}
+		rec.Eval(1)
+		sig := fmt.Sprintf("C05/handler/issued-handle-names-other-object/name-reused/now=%s/was=%s", kind, prev)
+		g, _ := c.getattr(h)
+		wantT := map[string]uint32{"file": 1, "dir": 2, "symlink": 5}[kind]
+		if g == nil || g.Status != 0 {
+			fail("C05/handler/issued-handle-dead/name-reused", fmt.Sprintf("handle %d from %s for x (%s, was %s): GETATTR %+v", h, src, kind, prev, vfSt(g)))
+		} else if g.Attr.Type != wantT {
+			fail(sig, fmt.Sprintf("handle %d from %s for x: GETATTR says type %d, x is a %s now", h, src, g.Attr.Type, kind))
+		}
+		switch kind {
+		case "dir":
+			ops = append(ops, "LOOKUP x/absent", "CREATE x/child", "READDIR x")
+			if l, _ := c.lookup(h, "absent"); l == nil || l.Status != 2 {
+				fail(sig, fmt.Sprintf("handle %d from %s names the directory x, yet LOOKUP of an absent name through it answered status %d, want NOENT", h, src, vfSt(l)))
+			}
+			if cr, _ := c.create(h, "child", 1, sattrNone, [8]byte{}); cr == nil || cr.Status != 0 {
+				fail(sig, fmt.Sprintf("handle %d from %s names the directory x, yet CREATE inside it answered status %d", h, src, vfSt(cr)))
+			} else if l, _ := c.lookup(h, "child"); l == nil || l.Status != 0 {
+				fail(sig, fmt.Sprintf("handle %d from %s names the directory x, yet LOOKUP of its child answered status %d", h, src, vfSt(l)))
+			}
+			if rd, _ := c.readdir(h, 0, 8192); rd == nil || rd.Status != 0 {
+				fail(sig, fmt.Sprintf("handle %d from %s names the directory x, yet READDIR answered status %d", h, src, vfSt(rd)))
+			}
+			ops = append(ops, "REMOVE x/child", "RMDIR x")
+			c.remove(h, "child")
+			if r, _ := c.rmdir(root, "x"); r == nil || r.Status != 0 {
+				fail("C05/name-reuse/rmdir-failed", fmt.Sprintf("RMDIR x (empty directory): status %d", vfSt(r)))
+				return
+			}
+		case "file":
+			ops = append(ops, "WRITE x", "READ x")
+			if w, _ := c.write(h, 0, 2, []byte("data")); w == nil || w.Status != 0 {
+				fail(sig, fmt.Sprintf("handle %d from %s names the regular file x, yet WRITE answered status %d", h, src, vfSt(w)))
+			} else if r, _ := c.read(h, 0, 10); r == nil || r.Status != 0 || string(r.Data) != "data" {
+				fail(sig, fmt.Sprintf("handle %d from %s names the regular file x, yet READ answered status %d data %q", h, src, vfSt(r), func() []byte {
+					if r != nil {
+						return r.Data
+					}
+					return nil
+				}()))
+			}
+			ops = append(ops, "REMOVE x")
+			if r, _ := c.remove(root, "x"); r == nil || r.Status != 0 {
+				fail("C05/name-reuse/remove-failed", fmt.Sprintf("REMOVE x (file): status %d", vfSt(r)))
+				return
+			}
+		default:
+			ops = append(ops, "READLINK x")
+			if r, _ := c.readlink(h); r == nil || r.Status != 0 || r.Link != "target" {
+				fail(sig, fmt.Sprintf("handle %d from %s names the symbolic link x, yet READLINK answered status %d", h, src, vfSt(r)))
+			}
+			ops = append(ops, "REMOVE x")
+			if r, _ := c.remove(root, "x"); r == nil || r.Status != 0 {
+				fail("C05/name-reuse/remove-failed", fmt.Sprintf("REMOVE x (symlink): status %d", vfSt(r)))
+				return
+			}
+		}
+		rec.Distinct(fmt.Sprintf("handler|name-reuse|%s-after-%s|via=%s", kind, prev, src))
+		prev = kind
 	}
 }
